@@ -83,6 +83,18 @@ CHECKS = {
              "in-process cli.main. quick executes a seeded third/quarter of the points, thorough all.",
         technique="TLA+ model checking (TLC) of complete finite products + materialised end-to-end runs + trace validation (ConfigTrace.tla)",
         design="§6 C16"),
+    "C18": dict(
+        level="model_checking",
+        text="spec/Gitignore.tla gives git's ignore semantics over a small universe (7 files at depth <= 3, 17 patterns: basename, anchored, "
+             "multi-segment, dir-only, *, **, ?, negation; .gitignore at the root and in d/; last match wins per file, deepest file with an "
+             "opinion wins, no re-inclusion below an excluded directory). TLC enumerates the configurations and checks chain-semantics "
+             "invariants; each configuration is materialised in a scratch git repository and three listings are observed: git itself, "
+             "flowmark with gitignore, flowmark with --no-respect-gitignore. spec/GitTrace.tla decides flowmark = git (verdict, both real) "
+             "and that the off-switch lists everything; model = git is tracked as drift.",
+        note="Oracle: the git binary on PATH. All 324 one-line configurations exhaustively; two-line configurations sampled by VERIF_SEED "
+             "(700 quick / 12 000 thorough of 94 249). Patterns outside the 17 are not covered.",
+        technique="TLA+ model of gitignore semantics (TLC) + differential replay against git + trace validation (GitTrace.tla)",
+        design="§6 C18"),
 }
 
 NOT_YET = "check not built yet in this phase (planned, see DESIGN.md §6)"
